@@ -66,7 +66,12 @@ def main():
         merged = core.merge([d])
         return core.finish(mod, a.tier, a.seed, merged, 0.0, [], write_evidence=False, replay=True)
 
-    cases = mod.cases(a.tier, a.seed)
+    # thorough tier: the check's case grid is instantiated THOROUGH_ROUNDS times with independent derived seeds (more
+    # instances / histories per configuration); every case descriptor carries its own seed, so replays are unaffected
+    rounds = int(os.environ.get("VERIF_ROUNDS", "0")) or (getattr(mod, "THOROUGH_ROUNDS", 1) if a.tier == "thorough" else 1)
+    cases = []
+    for k in range(rounds):
+        cases += mod.cases(a.tier, a.seed + 1000003 * k)
 
     if a.shard:
         i, n = map(int, a.shard.split("/"))
